@@ -1335,16 +1335,13 @@ const ruleTextWriteReplaces = "Dir.WriteFile replaces the file: every os.OpenFil
 
 func checkWriteReplaces(c *Ctx, rule string) {
 	n := 0
-	var oTrunc, oAppend int64 = -1, -1
+	var oTrunc int64 = -1
 	for _, p := range c.Pkgs {
 		if p.PkgPath == pMigrate {
 			for _, imp := range p.Types.Imports() {
 				if imp.Path() == "os" {
 					if k, ok := imp.Scope().Lookup("O_TRUNC").(*types.Const); ok {
 						oTrunc, _ = constant.Int64Val(k.Val())
-					}
-					if k, ok := imp.Scope().Lookup("O_APPEND").(*types.Const); ok {
-						oAppend, _ = constant.Int64Val(k.Val())
 					}
 				}
 			}
